@@ -115,6 +115,12 @@ CHECKS = {
   design_ref="DESIGN.md §6 C19",
   note="The reference decoding (harness/lds) is my second reading of Doc 9303-10 / ISO 19794-5 / 39794-5; not asserted: empty components of '<'-separated lists (dropped on purpose), efCVCA of TerminalAuthenticationInfo (not exposed), the OID arc of EFDIRInfo.",
   technique="TLA+ spec (LdsView.tla) enumerated with TLC; specified view per shape and life-cycle behaviours replayed into the real constructors, compared with an independent reference decoding"),
+ "C20": dict(
+  category="model_checking",
+  text="Concurrency.tla models (1) one shared reader / verifier: configuration, one mutex, setters and the long call split into Call / Acquire / Write / Snapshot / Exchange / Release so that TLC explores every interleaving of three goroutines' programs (Mutex, NoInterleaving of the exchanges the chip sees, Linearizable: every long call used exactly the configuration a sequential execution in lock order gives it); the designs without whole-call locking (snapshot under the lock, then release), without the mutex, and with a verification context shared between independent verifications must each yield their counterexample; (2) independent verifications sharing one trust store, each with its own reference time (AsIfAlone); (3) the sync.Once-built trust store (InitOnce, AllSeeThePool). Binding: every schedule of the forcible sub-model (start a call / let a call perform its next exchange; 134 behaviours) is forced on real mobile.Reader, reader.Reader and verifier.Verifier objects through gates in the Transceiver / CertPool interfaces; the controller's observations (call, blocked-at-gate, gate opened, return with the configuration the chip saw: PACE attempted, DG2 selected, challenge on the wire, Le of READ BINARY) are validated against Trace_Concurrency, where lock acquisitions are unobserved internal steps placed by TLC, and the chip-side order of exchanges must be one block per call; every interleaving of three independent passive authentications at the pool-lookup gates (documents whose chains are valid at disjoint times) must give the lone result; 32 racing callers initialise the built-in trust store once (hook event count); a contended random workload runs in a -race build of the driver, any race report is a violation.",
+  design_ref="DESIGN.md §6 C20",
+  note="Schedules are forced at the granularity of the public gates (transceiver exchanges, pool lookups); finer interleavings inside the Go runtime are sampled by the race-detector run, not enumerated.",
+  technique="TLA+ spec (Concurrency.tla) model-checked with TLC; forced schedules on the real shared objects recorded and validated against Trace_Concurrency; Go race detector on a contended driver"),
 }
 PENDING = {}
 
